@@ -258,6 +258,16 @@ def _lossless_rule(chk, m):
                           'isoformat is given a precision limit (%s): the sub-millisecond part of an instant is dropped on serialization and does not come back' % src(c))
             if isinstance(c, ast.Call) and isinstance(c.func, ast.Attribute) and c.func.attr == 'strftime':
                 n += 1
+                # only a format with a year field is affected; the format is a class constant (cls.FORMAT / cls.FORMATS[k])
+                fmt_txt = src(c.args[0]) if c.args else ''
+                cn = q.split('.')[0]
+                consts_ = ' '.join(src(st.value) for st in m.cls(cn).body if isinstance(st, ast.Assign) and any(src(t).split('[')[0] in fmt_txt for t in st.targets)) \
+                    if m.has(cn) else ''
+                if isinstance(c.args[0] if c.args else None, ast.Constant):
+                    consts_ = fmt_txt
+                if '%Y' not in consts_:
+                    chk.ok('C40.lossless', c, '%s: %s has no year field' % (q, src(c)), nontrivial=False)
+                    continue
                 chk.viol('C40.lossless', c, '%s: %s' % (q, src(c)), 'the text form is produced by strftime: the C library does not zero-pad %Y, so a date before year 1000 is written '
                          'as e.g. 999-12-31, which the reader (strptime with the same format) rejects and hands back as a raw string')
     if n < 2:
